@@ -963,6 +963,14 @@ def gen_history(rng, w, n_random, stats):
         if cd is not None:
             steps.append({"op": "new", "id": hid, "hostile": cls})           # a refused name must not end the story
         steps.append({"op": "cp_ext", "id": hid, "src": [src_file()], "dst": "h.txt", "hostile": cls})
+        if rng.random() < 0.6:
+            # the same new content under two names: the commit de-duplicates them, and when it is then REFUSED (root
+            # occupied / nested / outside) the duplicate is put back - into the staged version, nowhere else (890d206)
+            dupsrc = os.path.relpath(w.new_source("dup.bin", b"same bytes under two names"), w.area)
+            dupsrc2 = os.path.relpath(w.new_source("dup2.bin", b"same bytes under two names"), w.area)
+            stats["hostile_duplicate_content"] = stats.get("hostile_duplicate_content", 0) + 1
+            steps.append({"op": "cp_ext", "id": hid, "src": [dupsrc], "dst": "a.txt", "hostile": cls})
+            steps.append({"op": "cp_ext", "id": hid, "src": [dupsrc2], "dst": "b.txt", "hostile": cls})
         if rng.random() < 0.5:
             dcls, dst = rng.choice(HOSTILE_DST)
             stats["hostile_" + dcls] = stats.get("hostile_" + dcls, 0) + 1
